@@ -177,7 +177,7 @@ CHECKS = {
     note=TB + " PipeRunner/RoocSolver/solve_with are compared, not modelled."),
  "C18": dict(
     category="proof",
-    text="PARTIAL (runtime property). Proved in Coq (axiom-free) on the models tied to the code by the other checks: bound propagation stops after at most max_steps constraint visits and the tableau simplex after at most `limit` pivots - "
+    text="Exp::linearize is structurally recursive: with fuel above the depth of the expression its Gallina model never reports exhaustion, for every expression (logic arms included) and every state (C18_linearize_recursion_is_structural, Proof/LinFuel.v). PARTIAL (runtime property). Proved in Coq (axiom-free) on the models tied to the code by the other checks: bound propagation stops after at most max_steps constraint visits and the tableau simplex after at most `limit` pivots - "
          "the fuel of the models is never what stops them; integer arithmetic on constants is checked: every integer result of every operator lies inside i64 / u64 for all operands, and the former panic/wrap cases (negating the smallest integer, "
          "negating a huge positive integer) are Overflow errors. The property itself is evaluated on the implementation under catch_unwind and a process-level watchdog: repository programs, fixed adversarial inputs, thousands of mutated programs, "
          "grammar-derived programs and raw noise go through parse, error rendering, format (+ re-parse), type_check, transform, Display, linearize, LP export, standardise and solve; parsing time is measured at nesting depths 8..128 for every recursive construct. "
